@@ -68,6 +68,7 @@ class Analyzer:
         self.summaries = summaries      # object with .mod(callee id) / .ret(callee id)  (optional)
         self.interproc = interproc
         self._promoted_cache = {}
+        self.cast_log = None            # when a list: (rvalue, source interval, from type, to type) of every int->int cast
         self.watch = None               # optional predicate on callee paths: argument values are recorded in Result.call_states
         self.closure_seeds = {}         # closure body id -> {arg local: (lo, hi)}
 
@@ -774,6 +775,9 @@ class Analyzer:
         elif k == "optval":
             # condition on an option value that is not stored at a stable place
             self.assume_optval(st, c[1], truth)
+        elif k == "guarded":
+            for (a, b, d) in (c[1] if truth else c[2]):
+                st.add_le(a, b, d)
         elif k == "conj":
             if truth:
                 for (a, b, d) in c[1]:
@@ -895,6 +899,7 @@ class Analyzer:
     # ------------------------------------------------------------------ statements
     def do_stmt(self, st, s):
         k = s["k"]
+        self.cur_line = s.get("line")
         if k == "assign":
             rv = s["rv"]
             v, vt = self.rvalue(st, rv, s["p"])
@@ -1021,6 +1026,8 @@ class Analyzer:
             return TOP, ta
         if k == "cast":
             a, ta = self.eval_op(st, rv["a"])
+            if self.collect and self.cast_log is not None and rv["ck"] == "int2int":
+                self.cast_log.append((self.cur_line, st.val_iv(a) if a[0] in ("n", "iv") else None, rv["from"], rv["ty"], rv["a"]))
             if rv["ck"].startswith("coerce") or rv["ck"] in ("ptr2ptr",):
                 # unsizing &[T; N] -> &[T] keeps the pointee place (array length is in the type)
                 return a, rv["ty"]
@@ -1115,6 +1122,7 @@ class Analyzer:
         _ad.MAX_PARAM = body.argc
         self.cur_dirty = frozenset()
         self.cur_state = None
+        self.cur_line = None
         self.switch_conds = {}
         self.eb = None
         # reference-typed locals with several definitions (loop-carried slices, re-bound `&mut` cursors) are places
@@ -1197,6 +1205,18 @@ class Analyzer:
                 self.transfer_block(bi, st.copy())
             self.collect = False
         return self.res
+
+    def state_before_term(self, bi):
+        """abstract state just before the terminator of block `bi` (after analyze())"""
+        st = self.res.in_states.get(bi)
+        if st is None or st.bottom:
+            return None
+        st = st.copy()
+        for s in self.b.blocks[bi]["stmts"]:
+            self.do_stmt(st, s)
+            if st.bottom:
+                return None
+        return st
 
     def thresholds(self, body):
         ts = {0, 1, -1, 255, 256, 65535}
